@@ -9,7 +9,7 @@ from typing_extensions import Never
 from mypy_extensions import mypyc_attr
 
 from pyjelly import jelly
-from pyjelly.errors import JellyConformanceError
+from pyjelly.errors import JellyAssertionError, JellyConformanceError
 from pyjelly.options import MAX_VERSION, LookupPreset, StreamParameters, StreamTypes
 from pyjelly.parse.lookup import LookupDecoder
 
@@ -259,13 +259,19 @@ class Decoder:
 
     def validate_stream_options(self, options: jelly.RdfStreamOptions) -> None:
         stream_types, lookup_preset, params = self.options
-        assert stream_types.physical_type == options.physical_type
-        assert stream_types.logical_type == options.logical_type
-        assert params.stream_name == options.stream_name
-        assert params.version >= options.version
-        assert lookup_preset.max_prefixes == options.max_prefix_table_size
-        assert lookup_preset.max_datatypes == options.max_datatype_table_size
-        assert lookup_preset.max_names == options.max_name_table_size
+        # Explicit raises rather than assert statements: the checks must also
+        # reject the stream when Python runs with -O / PYTHONOPTIMIZE.
+        if not (
+            stream_types.physical_type == options.physical_type
+            and stream_types.logical_type == options.logical_type
+            and params.stream_name == options.stream_name
+            and params.version >= options.version
+            and lookup_preset.max_prefixes == options.max_prefix_table_size
+            and lookup_preset.max_datatypes == options.max_datatype_table_size
+            and lookup_preset.max_names == options.max_name_table_size
+        ):
+            msg = "stream options row does not match the options of the stream"
+            raise JellyAssertionError(msg)
 
     def ingest_prefix_entry(self, entry: jelly.RdfPrefixEntry) -> None:
         """
